@@ -85,7 +85,7 @@ func (l *LineFilterPlanner) doLike(likeOp string) (sql.SQLCondition, error) {
 	enqVal = strings.Replace(enqVal, "%", "\\%", -1)
 	enqVal = strings.Replace(enqVal, "_", "\\_", -1)
 	return sql.Eq(
-		sql.NewRawObject(fmt.Sprintf("%s(samples.string, '%%%s%%')", likeOp, enqVal)), sql.NewIntVal(1),
+		sql.NewRawObject(fmt.Sprintf("%s(string, '%%%s%%')", likeOp, enqVal)), sql.NewIntVal(1),
 	), nil
 }
 
